@@ -112,3 +112,73 @@ def length_refute(pc, goal, timeout_ms=8000):
         out['note'] = 'length abstraction: the two byte strings have different lengths in this model'
         return out
     return None
+
+
+# ---------------------------------------------------------------------------------------------------
+# small-scope refutation for byte-sequence obligations: every uninterpreted sequence term has length
+# <= BOUND and every fill `b * n` has n <= BOUND and is expanded exactly; the query is then decided by
+# z3's sequence solver at once.  A model is a genuine counterexample of the VC (in that scope).
+
+BOUND = 12
+
+
+def _collect(t, seqs, reps, depth=0):
+    if z3.is_quantifier(t) or depth > 60:
+        return
+    if z3.is_app(t) and z3.is_seq(t):
+        k = t.decl().kind()
+        if k == z3.Z3_OP_UNINTERPRETED:
+            if t.decl().name().startswith('rep_') and t.num_args() == 1:
+                reps[str(t)] = t
+            else:
+                seqs[str(t)] = t
+    for c in t.children():
+        _collect(c, seqs, reps, depth + 1)
+
+
+def bounded_seq_refute(pc, goal, axioms=(), timeout_ms=10000):
+    if not mentions_seq(goal):
+        return None
+    seqs, reps = {}, {}
+    for c in pc:
+        _collect(c, seqs, reps)
+    _collect(goal, seqs, reps)
+    s = z3.Solver()
+    s.set('timeout', timeout_ms)
+    for a in axioms:
+        if not z3.is_quantifier(a):
+            s.add(a)
+    for c in pc:
+        s.add(c)
+    s.add(z3.Not(goal))
+    for t in seqs.values():
+        s.add(z3.Length(t) <= BOUND)
+    for t in reps.values():
+        n = t.arg(0)
+        byte = int(t.decl().name()[4:], 16)
+        unit = z3.Unit(z3.BitVecVal(byte, 8))
+        s.add(n <= BOUND)
+        exp = z3.Empty(t.sort())
+        cases = exp
+        acc = []
+        for k in range(BOUND, 0, -1):
+            pass
+        cur = z3.Empty(t.sort())
+        expansion = cur
+        chain = None
+        vals = [z3.Empty(t.sort())]
+        for k in range(1, BOUND + 1):
+            vals.append(z3.Concat(vals[-1], unit) if k > 1 else unit)
+        e = vals[BOUND]
+        for k in range(BOUND - 1, -1, -1):
+            e = z3.If(n <= k, vals[k], e)
+        s.add(t == e)
+    if s.check() == z3.sat:
+        m = s.model()
+        out = {}
+        for d in m.decls():
+            if d.arity() == 0:
+                out[d.name()] = str(m[d])[:80]
+        out['note'] = 'small-scope refutation: all byte strings of length <= %d, fills expanded exactly' % BOUND
+        return out
+    return None
